@@ -643,6 +643,7 @@ type pending struct {
 	cfg                config
 	g                  goRun
 	m                  *modelCase
+	htmlLit            bool // predicate `rdfa-html-literal-children` holds for the document
 }
 
 type harness struct {
@@ -653,6 +654,7 @@ type harness struct {
 	queue []pending
 	pool  []string
 	known map[string]vh.Finding // C05 known findings by key
+	knownC11 map[string]vh.Finding
 }
 
 func (h *harness) want(f string) bool { return len(h.fam) == 0 || h.fam[f] }
@@ -699,6 +701,39 @@ func firstFrames(stack string) string {
 // encoding/html.(*Document).GetNodeMetadata, only with text-offset capture
 func metadataNilDeref(g goRun) bool {
 	return strings.Contains(g.panic, "nil pointer dereference") && strings.Contains(g.stack, "inspecthtml.(*ParseMetadata).GetNodeMetadata")
+}
+
+// predicate `rdfa-html-literal-children`: some element carries @property and a @datatype whose value names rdf:HTML (ends in "HTML")
+// and has an element child: HTML+RDFa 1.1 makes its value the serialised children, the library takes the text content
+func htmlLiteralWithChildren(n *xhtml.Node) bool {
+	if n == nil {
+		return false
+	}
+	if n.Type == xhtml.ElementNode {
+		dt, prop, kid := false, false, false
+		for _, a := range n.Attr {
+			if a.Namespace == "" && a.Key == "datatype" && strings.HasSuffix(strings.TrimSpace(a.Val), "HTML") {
+				dt = true
+			}
+			if a.Namespace == "" && a.Key == "property" {
+				prop = true
+			}
+		}
+		for c := n.FirstChild; c != nil; c = c.NextSibling {
+			if c.Type == xhtml.ElementNode {
+				kid = true
+			}
+		}
+		if dt && prop && kid {
+			return true
+		}
+	}
+	for c := n.FirstChild; c != nil; c = c.NextSibling {
+		if htmlLiteralWithChildren(c) {
+			return true
+		}
+	}
+	return false
 }
 
 // known C05 classes of the HTML stack that are not the RDFa decoder's (third-party capture-mode panics, listed by C05X)
@@ -763,6 +798,10 @@ func (h *harness) one(family, base, text string, cfg config) {
 		h.rep.Count("fail:envok")
 	}
 	tBuild += time.Since(t1)
+	p.htmlLit = htmlLiteralWithChildren(g.root)
+	if p.htmlLit {
+		h.rep.Count("class:rdfa-html-literal-children")
+	}
 	p.g.root = nil
 	h.queue = append(h.queue, p)
 	if len(h.queue) >= 1500 {
@@ -842,6 +881,13 @@ func (h *harness) flush() {
 			h.rep.Count("model:unordered")
 		}
 		h.rep.Count("outcome:" + goOutcome)
+		if f, ok := h.knownC11["C11RA-rdf-html-literal"]; ok && !same && p.htmlLit {
+			// proposed finding (props/C11RA.known-findings.proposed.json): inside the class either the current behaviour (text content)
+			// or the repaired one (serialised children) is accepted, so that an upstream repair raises no alarm
+			h.rep.Count("known:C11RA-rdf-html-literal")
+			h.rep.Add(vh.Case{Kind: "known", Key: f.Key, Op: "rdf:HTML literal", Go: goOutcome + " " + goS, Model: moS, Detail: truncate(caseDetail(p), 600)})
+			continue
+		}
 		if !same {
 			h.rep.Count("fail:disagreement:" + p.family)
 			h.rep.Add(vh.Case{Kind: "disagreement", Op: truncate(p.m.line(), 4000), Go: goOutcome + " " + goS, Model: truncate(answers[i], 20) + " " + moS, Detail: caseDetail(p)})
@@ -986,6 +1032,36 @@ func (h *harness) wildFamily(n int) {
 	}
 }
 
+// every entry of htmlIgnoredLinkRels (decoder_html_util.go) and the same keywords on the other link elements, under a local
+// vocabulary so that the keyword resolves, with and without @inlist, hanging and with @href, under every profile
+var linkRelWords = []string{"alternate", "canonical", "author", "bookmark", "dns-prefetch", "expect", "external", "icon", "manifest", "modulepreload",
+	"nofollow", "noopener", "noreferrer", "opener", "pingback", "preconnect", "prefetch", "preload", "privacy-policy", "stylesheet", "tag",
+	"terms-of-service", "help", "license", "next", "prev", "search", "me", "NoFollow", "STYLESHEET"}
+
+func (h *harness) linkRelFamily() {
+	n := 0
+	for _, tag := range []string{"a", "area", "link", "form", "span"} {
+		for _, w := range linkRelWords {
+			for _, prof := range []int{0, 0b1, 0b110, 0b1110, 0b11110, 0b111110} {
+				attrs := "rel=\"" + w + " other\""
+				switch n % 3 {
+				case 0:
+					attrs += " href=\"http://x.example/t\""
+				case 1:
+					attrs += " href=\"http://x.example/t\" inlist=\"\""
+				}
+				end := "</" + tag + ">"
+				if voidTags[tag] {
+					end = ""
+				}
+				text := "<html><head></head><body vocab=\"http://v.example/\"><" + tag + " " + attrs + "><b about=\"#k\">x</b>" + end + "</body></html>"
+				h.one("linkrel", "http://ex.org/doc", text, config{profile: prof, mode: n % 3})
+				n++
+			}
+		}
+	}
+}
+
 var hotHTML = []byte("<>/=\"' \t\n[]_:#aboutpropertyrelrevresourcetypeofvocabprefixinlistcontentdatatypehrefsrc&;-!")
 
 func (h *harness) mutatedFamily(n int) {
@@ -1071,9 +1147,13 @@ func main() {
 		os.Exit(2)
 	}
 	known := map[string]vh.Finding{}
+	knownC11 := map[string]vh.Finding{}
 	for _, f := range fs {
 		if f.Property == "C05" && f.Status == "known" {
 			known[f.Key] = f
+		}
+		if f.Property == "C11" && f.Status == "known" {
+			knownC11[f.Key] = f
 		}
 	}
 	// inspecthtml writes diagnostics ("regex attr failed …") to os.Stderr in capture mode
@@ -1085,7 +1165,7 @@ func main() {
 	if len(htmlrdfa.InitialContext) != 0 {
 		rep.Add(vh.Case{Kind: "disagreement", Op: "htmlrdfa.InitialContext", Go: fmt.Sprint(len(htmlrdfa.InitialContext), " entries"), Model: "empty (AddPrefixMappings(InitialContext...) is modelled as a no-op)"})
 	}
-	h := &harness{r: vh.NewRng(seed), rep: rep, drv: vh.Driver{Path: *driver}, fam: map[string]bool{}, known: known}
+	h := &harness{r: vh.NewRng(seed), rep: rep, drv: vh.Driver{Path: *driver}, fam: map[string]bool{}, known: known, knownC11: knownC11}
 	if *only != "" {
 		for _, f := range strings.Split(*only, ",") {
 			h.fam[f] = true
@@ -1111,6 +1191,11 @@ func main() {
 		if h.want("corpus") {
 			h.corpus(dir, stride)
 			rep.Exhaustive = append(rep.Exhaustive, fmt.Sprintf("rdfa.info test-suite documents rdfa1.0/1.1 x html4/html5/xhtml1/xhtml5 (every %d-th per run at this tier) under the directory's profile and under no profile; all decoder_test.go snippets x 3 parse paths", stride))
+			h.flush()
+		}
+		if h.want("linkrel") {
+			h.linkRelFamily()
+			rep.Exhaustive = append(rep.Exhaustive, "link-relation filter: every keyword of htmlIgnoredLinkRels (+ 8 others) x {a, area, link, form, span} x 6 profiles, as @rel with @href, with @href+@inlist, and hanging")
 			h.flush()
 		}
 		for done := 0; done < n; {
